@@ -460,11 +460,33 @@ def populate_guard_paths():
     return GuardPaths(fn).run()
 
 
+# ---------------------------------------------------------------------------------------------------
+def reparam_registry():
+    """registered reparameterisation names -> (class name, default keyword names), read from the dictionary
+    literal nessai.reparameterisations.default_reparameterisations"""
+    mod, _ = parse("nessai/reparameterisations/__init__.py")
+    for s in mod.body:
+        if isinstance(s, ast.Assign) and any(unparse(t) == "default_reparameterisations" for t in s.targets) \
+                and isinstance(s.value, ast.Dict):
+            out = []
+            for k, v in zip(s.value.keys, s.value.values):
+                if not (isinstance(k, ast.Constant) and isinstance(k.value, str)):
+                    continue                      # the None key
+                if not (isinstance(v, ast.Tuple) and len(v.elts) == 2 and isinstance(v.elts[0], ast.Name)):
+                    raise Declined(f"registry entry {k.value}: not (Class, kwargs)")
+                kw = v.elts[1]
+                keys = [x.value for x in kw.keys] if isinstance(kw, ast.Dict) else []
+                out.append((k.value, v.elts[0].id, keys))
+            return out
+    raise Declined("default_reparameterisations dictionary not found")
+
+
 if __name__ == "__main__":
     print(check_configuration()[0])
     print(aliases())
     print(base_proposals())
     print(shapes())
+    print(reparam_registry())
     print(val_batch_size())
     for p_ in populate_guard_paths():
         print("path", "".join(p_))
